@@ -63,8 +63,13 @@ PfTerm(pf) ==
 
 \* shred-group descriptor: group g of the shreds of slice idx of block src, shredded with
 \* the header flag `last` and signed by `signer`; dmg: payload bytes altered afterwards
+\* tag: the data/coding kind on the wire ("ok": as the leader made it, "flip": the other kind).  The
+\* kind is covered by neither the leader's signature nor the Merkle path: anybody relaying an
+\* authentic shred can flip it, and it says nothing about the leader.
 Shg(src, idx, g, last, signer, dmg) ==
-  [src |-> src, idx |-> idx, g |-> g, last |-> last, signer |-> signer, dmg |-> dmg]
+  [src |-> src, idx |-> idx, g |-> g, last |-> last, signer |-> signer, dmg |-> dmg, tag |-> "ok"]
+Flip(sh) == [sh EXCEPT !.tag = "flip"]
+KindOK(sh) == sh.tag = "ok"          \* is_data() = (shred index < DATA_SHREDS)
 NoSh == Shg("-", 0, 0, FALSE, "-", FALSE)
 ShRoot(sh) == IF sh.dmg \/ sh.src = "-" THEN "junk" ELSE BlockOf(sh.src)[sh.idx + 1]
 \* ValidatedShred::try_new(shred, None, leader_pk): the leader's signature over
@@ -122,7 +127,10 @@ AddGroup(bs, sh) ==
   LET i == sh.idx
       c == <<sh.last, ShRoot(sh)>>
   IN
-  IF i \notin SliceIdx THEN AddRes(bs, "equiv", "-")     \* (never reached: roots beyond the last slice are never proven)
+  \* a shred whose kind contradicts its index is dropped before anything else: it is not evidence
+  \* against the leader (AddShredError::WrongKind; the leader is NOT flagged)
+  IF ~KindOK(sh) THEN AddRes(bs, "wrongkind", "-")
+  ELSE IF i \notin SliceIdx THEN AddRes(bs, "equiv", "-")     \* (never reached: roots beyond the last slice are never proven)
   ELSE IF bs.cm[i] # NoCm /\ bs.cm[i] # c THEN AddRes(bs, "equiv", "-")
   ELSE
     LET bs1 == [bs EXCEPT !.cm[i] = c]
@@ -153,6 +161,7 @@ InitReq ==
    last |-> -1,                              \* proven last slice index of B
    bs |-> EmptyStore,
    ann |-> <<>>,                             \* Block events announced so far (names of hashes)
+   flagged |-> FALSE,                        \* the store reported the slot's leader (InvalidBlock, leader_misbehaved)
    panic |-> FALSE]
 
 \* result of one step: new state, requests put on the wire, Block events emitted
@@ -193,8 +202,12 @@ Handle(st, rp) ==
            ELSE IF ~AsCoded /\ rp.sh.last # (r.s = st.last) THEN reject     \* (D2)
            ELSE
              LET a == AddGroup(st.bs, rp.sh)
-                 st1 == [taken EXCEPT !.bs = a.bs]
-             IN IF a.blk = "-" THEN Res(st1, {}, <<>>)
+                 \* Equivocation / InvalidShred from the store flag the leader of the slot
+                 st1 == [taken EXCEPT !.bs = a.bs, !.flagged = @ \/ a.res = "equiv"]
+             IN \* refused for its kind: nothing stored, nobody blamed, and the request stays
+                \* outstanding -- the shred was not obtained, a correct answer must still be usable
+                IF a.res = "wrongkind" THEN reject
+                ELSE IF a.blk = "-" THEN Res(st1, {}, <<>>)
                 ELSE Res([st1 EXCEPT !.ann = Append(@, a.blk),
                                      !.panic = (a.blk # r.blk)],     \* assert_eq!(block_info.hash, block_hash)
                          {}, <<a.blk>>)
@@ -226,7 +239,7 @@ Verifies(rp) ==
     [] rp.v = "sr" -> r.t = "sr" /\ Check(rp.root, r.s, HashOf(r.blk), PfTerm(rp.pf))
     [] rp.v = "sh" -> /\ r.t = "sh" /\ HdrMatches(rp.sh, r) /\ SigOK(rp.sh)
                       /\ r.s < Len(BlockOf(r.blk)) /\ ShRoot(rp.sh) = BlockOf(r.blk)[r.s + 1]
-                      /\ rp.sh.last = TrueLast(rp.sh)
+                      /\ rp.sh.last = TrueLast(rp.sh) /\ KindOK(rp.sh)
     [] OTHER -> FALSE
 
 ---------------------------------------------------------------------------
@@ -242,6 +255,9 @@ ProvenRootsAreTrue(st) ==
   /\ \A i \in SliceIdx : st.roots[i] \in {"-", BlockOf("B")[i + 1]}
   /\ st.last \in {-1, NS - 1}
 NoPanic(st) == ~st.panic
+\* whatever repair peers send, the repair path never reports the leader: what reaches the repaired
+\* spot is content of B, proven against hash(B), so it cannot contradict itself; a flipped kind is no evidence
+CorrectLeaderNeverFlaggedByRepair(st) == ~st.flagged
 \* as long as the block is not stored there is an outstanding request whose correct answer is
 \* still accepted and brings the repair forward
 \* slice i is being worked on: its root is requested, or its root is proven and enough shred
